@@ -10,6 +10,7 @@ import (
 	"runtime"
 	"strings"
 	"sync"
+	"sync/atomic"
 	"time"
 
 	smtp "github.com/emersion/go-smtp"
@@ -359,8 +360,14 @@ func probeSched(f []string) string {
 	srv.ErrorLog = plog{log}
 	panicsRaised.Store(0)
 	conn := newDuplex(log)
+	// `latestart`: the command loop does not wait for a chunked delivery's goroutine to reach the backend (the schedule of an
+	// unloaded production server: the goroutine is started and the handler runs on)
+	var lateStart atomic.Bool
 	smtp.VerifPoint = func(name string) {
 		if name == "bdat-spawned" {
+			if lateStart.Load() {
+				return
+			}
 			select {
 			case <-be.dataStarted:
 			case <-time.After(5 * time.Second):
@@ -393,6 +400,8 @@ func probeSched(f []string) string {
 			}
 		case "pause":
 			time.Sleep(time.Duration(atoi(a[1])) * time.Millisecond)
+		case "latestart":
+			lateStart.Store(true)
 		case "slowlogout":
 			be.logoutDelayMs.Store(int64(atoi(a[1])))
 		case "connclose":
